@@ -151,8 +151,10 @@ def run(ctx: Ctx):
 
     for fn, exp in ((onshift, 2), (dflt, 1)):
         tests = blocking_tests(fn, None)
-        if len(tests) < exp:
-            raise AnchorMissing(f"{fn.qual}: {len(tests)} blocking interval tests, expected {exp}")
+        ctx.ob("R02.5", f"{fn.qual}: {len(tests)} blocking interval test(s)", fn, len(tests) >= exp,
+               "vacations / leaves each block their interval" if len(tests) >= exp else
+               f"{fn.qual} has {len(tests)} blocking interval tests where {exp} calendar inputs (vacations, leaves) must block",
+               key=f"R02.5|{fn.qual}|blocking count")
         for n in tests:
             # conjunct that carries the comparison
             parts = n.test.values if isinstance(n.test, ast.BoolOp) and isinstance(n.test.op, ast.And) else [n.test]
@@ -201,48 +203,60 @@ def run(ctx: Ctx):
     def e_(e):
         return isinstance(e, ast.Name) and e.id == "end_minutes"
 
-    found = {"cross": 0, "normal": 0, "prev": 0, "crosscond": 0}
-    for n in own_nodes(wh):
-        if not isinstance(n, ast.If):
-            continue
-        t = n.test
-        tx = norm(t)
-        rets_true = any(isinstance(s, ast.Return) and isinstance(s.value, ast.Constant) and s.value.value is True for s in n.body)
-        from ..order import eval_points
-        if isinstance(t, ast.Compare) and s_(t.comparators[0]) and e_(t.left) and not rets_true:
-            tab = _table(t, e_, s_)
-            ok = tab == {"<": True, "=": True, ">": False}
-            found["crosscond"] += 1
-            ctx.ob("R02.5", f"{wh.qual}: cross-midnight condition {tx}", (wh, n), ok,
-                   "interval wraps past midnight iff end <= start" if ok else f"cross-midnight condition is not end <= start ({tab})",
-                   key="R02.5|WorkingHours.onShift|crosscond")
-        elif rets_true and isinstance(t, ast.BoolOp) and isinstance(t.op, ast.Or) and "slot_minutes" in tx:
-            # wrapping interval start=20 > end=10, and the degenerate start == end
-            prof = [eval_points(t, [(m, p), (s_, 20), (e_, 10)]) for p in (5, 10, 15, 20, 25)]
-            prof2 = [eval_points(t, [(m, p), (s_, 10), (e_, 10)]) for p in (5, 10, 15)]
-            ok = prof == [True, False, False, True, True] and prof2 == [True, True, True]
-            found["cross"] += 1
-            ctx.ob("R02.5", f"{wh.qual}: wrapping interval {tx}", (wh, n), ok,
-                   "on shift iff m >= start or m < end" if ok else f"wrapping-interval test is not (m >= start or m < end): {prof} / {prof2}",
-                   key="R02.5|WorkingHours.onShift|cross")
-        elif rets_true and isinstance(t, ast.Compare) and len(t.ops) == 2 and "slot_minutes" in tx:
-            prof = interval_profile(t, m, s_, e_)
-            ok = prof == [False, True, True, False, False]
-            found["normal"] += 1
-            ctx.ob("R02.5", f"{wh.qual}: plain interval {tx}", (wh, n), ok,
-                   "on shift iff start <= m < end" if ok else f"plain-interval test is not start <= m < end: {prof}",
-                   key="R02.5|WorkingHours.onShift|normal")
-        elif rets_true and isinstance(t, ast.BoolOp) and isinstance(t.op, ast.And) and "slot_minutes" in tx and "end_minutes" in tx:
-            prof = [eval_points(t, [(m, p), (s_, 20), (e_, 10)]) for p in (5, 10, 15)]       # wrapping
-            prof2 = [eval_points(t, [(m, p), (s_, 10), (e_, 20)]) for p in (5, 15, 25)]      # plain
-            ok = prof == [True, False, False] and prof2 == [False, False, False]
-            found["prev"] += 1
-            ctx.ob("R02.5", f"{wh.qual}: previous-day spill-over {tx}", (wh, n), ok,
-                   "early-morning part of yesterday's wrapping shift: end <= start and m < end" if ok else
-                   f"previous-day spill-over test is not (end <= start and m < end): {prof} / {prof2}",
-                   key="R02.5|WorkingHours.onShift|prev")
-    if not all(found.values()):
-        raise AnchorMissing(f"WorkingHours.onShift interval tests not all found: {found}")
+    from ..order import eval_points
+    loops = [l for l in own_nodes(wh) if isinstance(l, ast.For) and "self._hours[" in norm(l.iter)]
+    if len(loops) != 2:
+        raise AnchorMissing(f"WorkingHours.onShift: {len(loops)} interval loops, expected 2 (same day, previous day)")
+    same, prev = loops
+
+    def rets_true(i):
+        return any(isinstance(x, ast.Return) and isinstance(x.value, ast.Constant) and x.value.value is True for x in i.body)
+
+    # same-day loop: `if <wraps>: if <wrapping test>: return True  else: if <plain test>: return True`
+    outer = [i for i in same.body if isinstance(i, ast.If)]
+    if len(outer) != 1:
+        raise AnchorMissing("WorkingHours.onShift: same-day loop does not consist of one wraps/plain decision")
+    o = outer[0]
+    tab = _table(o.test, e_, s_) if isinstance(o.test, ast.Compare) else None
+    ok = tab == {"<": True, "=": True, ">": False}
+    ctx.ob("R02.5", f"{wh.qual}: cross-midnight condition {norm(o.test)}", (wh, o), ok,
+           "interval wraps past midnight iff end <= start" if ok else f"cross-midnight condition is not end <= start ({tab})",
+           key="R02.5|WorkingHours.onShift|crosscond")
+    inner_w = [i for i in o.body if isinstance(i, ast.If) and rets_true(i)]
+    inner_p = [i for i in o.orelse if isinstance(i, ast.If) and rets_true(i)]
+    if len(inner_w) != 1 or len(inner_p) != 1:
+        ctx.ob("R02.5", f"{wh.qual}: wrapping / plain interval tests", (wh, o), False,
+               "the same-day loop no longer answers True from one wrapping test and one plain test", key="R02.5|WorkingHours.onShift|shape")
+    else:
+        t = inner_w[0].test
+        prof = [eval_points(t, [(m, p), (s_, 20), (e_, 10)]) for p in (5, 10, 15, 20, 25)]
+        prof2 = [eval_points(t, [(m, p), (s_, 10), (e_, 10)]) for p in (5, 10, 15)]
+        ok = prof == [True, False, False, True, True] and prof2 == [True, True, True]
+        ctx.ob("R02.5", f"{wh.qual}: wrapping interval {norm(t)}", (wh, inner_w[0]), ok,
+               "on shift iff m >= start or m < end" if ok else f"wrapping-interval test is not (m >= start or m < end): {prof} / {prof2}",
+               key="R02.5|WorkingHours.onShift|cross")
+        t = inner_p[0].test
+        prof = interval_profile(t, m, s_, e_)
+        ok = prof == [False, True, True, False, False]
+        ctx.ob("R02.5", f"{wh.qual}: plain interval {norm(t)}", (wh, inner_p[0]), ok,
+               "on shift iff start <= m < end" if ok else f"plain-interval test is not start <= m < end: {prof}",
+               key="R02.5|WorkingHours.onShift|normal")
+    pv = [i for i in prev.body if isinstance(i, ast.If) and rets_true(i)]
+    if len(pv) != 1:
+        ctx.ob("R02.5", f"{wh.qual}: previous-day spill-over test", (wh, prev), False,
+               "the previous-day loop no longer answers True from exactly one spill-over test", key="R02.5|WorkingHours.onShift|prev shape")
+    else:
+        t = pv[0].test
+        prof = [eval_points(t, [(m, p), (s_, 20), (e_, 10)]) for p in (5, 10, 15)]       # wrapping
+        prof2 = [eval_points(t, [(m, p), (s_, 10), (e_, 20)]) for p in (5, 15, 25)]      # plain
+        ok = prof == [True, False, False] and prof2 == [False, False, False]
+        ctx.ob("R02.5", f"{wh.qual}: previous-day spill-over {norm(t)}", (wh, pv[0]), ok,
+               "early-morning part of yesterday's wrapping shift: end <= start and m < end" if ok else
+               f"previous-day spill-over test is not (end <= start and m < end): {prof} / {prof2}",
+               key="R02.5|WorkingHours.onShift|prev")
+    ok = "prev_weekday" in norm(prev.iter)
+    ctx.ob("R02.5", f"{wh.qual}: spill-over loop iterates {norm(prev.iter)}", (wh, prev), ok, "hours of the previous weekday" if ok else
+           "spill-over loop does not iterate the previous weekday's hours", key="R02.5|WorkingHours.onShift|prev iter")
     # previous weekday = (weekday - 1) mod 7 in Python semantics
     pw = [n for n in own_nodes(wh) if isinstance(n, ast.Assign) and norm(n.targets[0]) == "prev_weekday"]
     ok = any(norm(n.value).replace(" ", "") in ("(weekday-1)%7", "(weekday+6)%7") for n in pw)
